@@ -43,6 +43,19 @@ static int full;
 static item *entry(void const *n) { return (item *)((char *)(a_uptr)n - offsetof(item, node)); }
 static long id_of(a_avl_node const *n) { return n ? entry(n)->id : 0; }
 
+/* stored balance factor: the low two bits of parent_ minus one in the packed layout (A_SIZE_POINTER > 3),
+   the separate field `factor` in the unpacked layout (the #else arms of avl.h / avl.c, built by the check
+   with A_SIZE_POINTER 1).  The parent always comes from the public accessor a_avl_parent, so both layouts
+   print the same lines. */
+static long factor_of(a_avl_node const *n)
+{
+#if defined(A_SIZE_POINTER) && (A_SIZE_POINTER + 0 > 3)
+    return (long)(n->parent_ & 3) - 1;
+#else /* !A_SIZE_POINTER */
+    return (long)n->factor;
+#endif /* A_SIZE_POINTER */
+}
+
 static int cmp(void const *lhs, void const *rhs)
 {
     long a = entry(lhs)->key, b = entry(rhs)->key;
@@ -90,7 +103,7 @@ static void dump(char tag, long ret)
         cur.l = id_of(it->node.left);
         cur.r = id_of(it->node.right);
         cur.p = id_of(a_avl_parent(&it->node));
-        cur.f = (long)(it->node.parent_ & 3) - 1;
+        cur.f = factor_of(&it->node);
         cur.valid = 1;
         if (full || !last[i].valid || last[i].key != cur.key || last[i].l != cur.l || last[i].r != cur.r ||
             last[i].p != cur.p || last[i].f != cur.f)
